@@ -631,6 +631,26 @@ func (fl *Flow) cmpInto(fs *FactSet, a ast.Expr, op token.Token, b ast.Expr, val
 		f := fl.mkFact(&Fact{Kind: FEq, L: a, R: b, Val: op == token.EQL, Origin: origin}, a, b)
 		f.raw = fmt.Sprintf("eq:%s|%s=%v", fl.raw.canon(a), fl.raw.canon(b), f.Val)
 		fs.add(f)
+		// tag == K also as the weaker tag != K' for every other kind: these survive the join of the
+		// edges of `case K1, K2:` (where neither equality does)
+		if op == token.EQL && fl.m.KindType != nil {
+			x, k := a, b
+			if tv, ok := fl.info.Types[a]; ok && tv.Value != nil {
+				x, k = b, a
+			}
+			if tv, ok := fl.info.Types[k]; ok && tv.Value != nil && tv.Type != nil && types.Identical(tv.Type, fl.m.KindType) {
+				if kv, exact := constant.Int64Val(tv.Value); exact {
+					for val, ke := range fl.m.kindConstExprs() {
+						if val == kv {
+							continue
+						}
+						g := fl.mkFact(&Fact{Kind: FEq, L: x, R: ke, Val: false, Origin: origin}, x, ke)
+						g.raw = fmt.Sprintf("eq:%s|%s=%v", fl.raw.canon(x), fl.raw.canon(ke), false)
+						fs.add(g)
+					}
+				}
+			}
+		}
 	}
 	la, ok1 := fl.z.lin(a)
 	lb, ok2 := fl.z.lin(b)
@@ -1137,6 +1157,33 @@ var preFlowHook func(fl *Flow)
 
 // leafConstExpr: some expression of the package that denotes the leaf tag constant (for facts
 // the engine synthesises).
+// kindConstExprs: for every kind value (inner kinds and the leaf kind) an identifier of the source
+// that denotes it.
+func (m *Model) kindConstExprs() map[int64]ast.Expr {
+	if m.kindConsts != nil {
+		return m.kindConsts
+	}
+	m.kindConsts = map[int64]ast.Expr{}
+	want := map[string]int64{m.LeafKind.Name: m.LeafKind.Value}
+	for _, k := range m.Kinds {
+		want[k.Name] = k.Value
+	}
+	first := map[int64]*ast.Ident{}
+	for id, obj := range m.Info.Uses {
+		if cst, ok := obj.(*types.Const); ok && cst.Pkg() == m.Pkg {
+			if v, isKind := want[cst.Name()]; isKind && m.KindType != nil && types.Identical(cst.Type(), m.KindType) {
+				if first[v] == nil || id.Pos() < first[v].Pos() {
+					first[v] = id
+				}
+			}
+		}
+	}
+	for v, id := range first {
+		m.kindConsts[v] = id
+	}
+	return m.kindConsts
+}
+
 func (m *Model) leafConstExpr() ast.Expr {
 	if m.leafConst != nil {
 		return m.leafConst
